@@ -52,7 +52,7 @@ func genC11(rt *rapid.T) pdCase {
 	for i := 0; i < n; i++ {
 		l := fmt.Sprintf("s%d", i)
 		st := pdStep{
-			Kind: rapid.SampledFrom([]string{"poll", "poll", "poll", "post", "post", "postBlocked", "postBlocked", "release", "release", "abortPoll", "abortPost", "postWhileHandlerBusy", "appSend", "appSend", "appClose", "wait", "heartbeat", "postClose", "postWrongHeartbeat", "closeWhileBusySlowConn"}).Draw(rt, l+".kind"),
+			Kind: rapid.SampledFrom([]string{"poll", "poll", "poll", "post", "post", "postBlocked", "postBlocked", "release", "release", "abortPoll", "abortPost", "postWhileHandlerBusy", "appSend", "appSend", "appClose", "wait", "heartbeat", "postClose", "postWrongHeartbeat", "closeWhileBusySlowConn", "slowPoll"}).Draw(rt, l+".kind"),
 			Sess: rapid.IntRange(0, c.NSess-1).Draw(rt, l+".sess"),
 			N:    rapid.IntRange(1, 5).Draw(rt, l+".n"),
 		}
@@ -282,6 +282,36 @@ func runC11(c pdCase) (fail string, stats map[string]bool) {
 					stats["multi-packet-ack"] = true
 				}
 			}
+		case "slowPoll":
+			// a poll over a slow connection: the status line of its response takes its time. The handler must not
+			// return before the response is out (what is written after it returned reaches nobody), one response
+			if s.closed || s.poll != nil || s.post != nil {
+				break
+			}
+			hold := make(chan struct{})
+			e := pc.StartPollMod(func(r *ReqSpec) { r.HoldHeader = hold })
+			Settle()
+			s.accepted = append(s.accepted, e)
+			s.poll = e
+			w.AppSend(s.sr, msgT("down-slow"), nil, false, 0)
+			Settle()
+			e.mu.Lock()
+			held, returned := e.HeldHeader, e.Returned
+			e.mu.Unlock()
+			if held {
+				stats["poll-response-on-slow-connection"] = true
+				if returned {
+					close(hold)
+					return fmt.Sprintf("%s: the poll's handler returned while its response was still being written (status line not out yet): net/http completes the exchange as an empty 200 and the payload reaches nobody", what), stats
+				}
+			}
+			close(hold)
+			Settle()
+			if snap := e.Snap(); !snap.Responded || snap.Status != 200 {
+				return fmt.Sprintf("%s: poll over a slow connection answered %v after the application sent", what, snap), stats
+			}
+			pc.Pump()
+			s.poll = nil
 		case "postClose", "postWrongHeartbeat":
 			// the client ends the session itself: N-1 messages, then a close packet (and one more message that
 			// must not be delivered); or a heartbeat packet travelling in the wrong direction for the revision
@@ -606,7 +636,7 @@ func TestC11PollingDiscipline(t *testing.T) {
 			rt.Fatalf("%v: %s", c, clipStr(res.Leak, 1500))
 		}
 	})
-	col.RequireClasses(t, "overlapping-poll", "overlapping-data-request", "aborted-poll", "aborted-data-request", "stalled-body-released", "poll-released-by-close", "poll-answered-by-send", "multi-packet-ack", "undisturbed-session-ok", "request-after-close", "data-request-while-handler-busy", "client-close-packet-with-poll-pending", "wrong-heartbeat-with-poll-pending", "two-responders-for-one-data-request")
+	col.RequireClasses(t, "overlapping-poll", "overlapping-data-request", "aborted-poll", "aborted-data-request", "stalled-body-released", "poll-released-by-close", "poll-answered-by-send", "multi-packet-ack", "undisturbed-session-ok", "request-after-close", "data-request-while-handler-busy", "client-close-packet-with-poll-pending", "wrong-heartbeat-with-poll-pending", "two-responders-for-one-data-request", "poll-response-on-slow-connection")
 }
 
 const sigTruncatedUpload = "aborted-upload-truncated-payload-processed"
